@@ -353,8 +353,10 @@ def generate(prng, tier, index):
             r = prng.random()
             if r < 0.45:
                 sc["faults"].append({"kind": "operand_raise", "eval": at, "at": prng.randrange(0, 40)})
-            elif r < 0.8:
+            elif r < 0.65:
                 sc["faults"].append({"kind": "structure_raise", "eval": at, "at": prng.randrange(0, 25)})
+            elif r < 0.85:
+                sc["faults"].append({"kind": "line_abort", "eval": at, "at": prng.choice((prng.randrange(0, 60), prng.randrange(0, 3000)))})
             else:
                 sc["faults"].append({"kind": "missing_attr", "eval": at, "which": prng.randrange(0, 6)})
     return sc
@@ -455,7 +457,11 @@ def _execute(sc, ctx):
                 dropped = others[f["which"] % len(others)]
                 del uu[dropped]
         nx.set_node_attributes(H, uu, "u")
-        st, val = ctx.call(src, AE.automated_equation, H, phi, focal, label="automated_equation")
+        st, val = ctx.call(src, AE.automated_equation, H, phi, focal, label="automated_equation",
+                           abort_at_line=(f["at"] if f and f["kind"] == "line_abort" else None))
+        if st == "abort":
+            faulted = True
+            continue
         tag = f" (evaluation #{k} of motif {m['name']!r} focal {focal}, {ev['kind']} operands" + \
               (", after an injected fault on this evaluator)" if faulted else ")")
         if st == "fault":
